@@ -4,6 +4,9 @@ package gnet
 
 import (
 	"context"
+	"net"
+
+	"golang.org/x/sys/unix"
 
 	"golang.org/x/sync/errgroup"
 
@@ -84,7 +87,20 @@ func (v *VerifLoop) ListenerFds() (fds []int) {
 	}
 	return
 }
-func (v *VerifLoop) ListenerAddr(i int) string { return v.lns[i].addr.String() }
+// ListenerAddr is the address the i-th listener is really bound to (getsockname).
+func (v *VerifLoop) ListenerAddr(i int) string {
+	sa, err := unix.Getsockname(v.lns[i].fd)
+	if err != nil {
+		return v.lns[i].addr.String()
+	}
+	switch x := sa.(type) {
+	case *unix.SockaddrInet4:
+		return (&net.TCPAddr{IP: x.Addr[:], Port: x.Port}).String()
+	case *unix.SockaddrInet6:
+		return (&net.TCPAddr{IP: x.Addr[:], Port: x.Port}).String()
+	}
+	return v.lns[i].addr.String()
+}
 func (v *VerifLoop) Options() (et bool, chunk, rbc, wbc int) {
 	o := v.eng.opts
 	return o.EdgeTriggeredIO, o.EdgeTriggeredIOChunk, o.ReadBufferCap, o.WriteBufferCap
